@@ -833,8 +833,15 @@ class UniformTime(np.ndarray, TimeInterface):
             d_interval = dv[0]
         return val, d_interval
 
+    def _refuse_collapse(self, d_interval):
+        # an operand that cancels the sampling interval would put all time
+        # points on one instant, which no sampling rate describes
+        if d_interval != 0 and int(self.sampling_interval) + d_interval == 0:
+            raise ValueError('This operand would collapse the time axis')
+
     def __iadd__(self, val):
         val, d_interval = self._convert_and_check_uniformity(val)
+        self._refuse_collapse(int(d_interval))
         # numpy refuses operands of the wrong shape or type here, before any
         # attribute has been touched:
         np.ndarray.__iadd__(self, val)
@@ -844,6 +851,7 @@ class UniformTime(np.ndarray, TimeInterface):
 
     def __isub__(self, val):
         val, d_interval = self._convert_and_check_uniformity(val)
+        self._refuse_collapse(-int(d_interval))
         np.ndarray.__isub__(self, val)
         self._set_sampling(int(self.t0) - int(np.asarray(val).flat[0]),
                            int(self.sampling_interval) - int(d_interval))
